@@ -444,8 +444,10 @@ def check(case):
         if w is not None:
             out.append((mksig("wellformed", cls if w[0] == "clause_order" else "any", w[0], _clause_pair(w[1])), w[1]))
             break
-    # (4) incomplete builders
-    for keep in case["subsets"]:
+    # (4) incomplete builders: the drawn sub-lists, and every sub-list that omits exactly one call
+    singles = [[i for i in range(n) if i != j] for j in range(n)] if n <= 14 else []
+    singles = [k for k in singles if k and p["steps"][k[0]][0] in ENTRY]
+    for keep in list(case["subsets"]) + singles:
         s = snap_of(p, keep)
         v = s.get("sql:" + cls) if "build" not in s else None
         if isinstance(v, str) and v.startswith("EXC:"):
